@@ -1,6 +1,10 @@
 (* uses: lib_irwire.ml *)
-(* Driver of the taint engine (C09).  Line: `new|old <cfg sexp> <branches sexp> [<idom sexp>]`
+(* Driver of the taint engine (C09).  Line: `new|old <cfg sexp> [<idom sexp>]`
    (`old` = the side-effect analysis before the repair of C09-single-name-constraint).
+   The branch regions are COMPUTED by the mirror Model.BranchRegion.branches_of (they used to be an
+   input dumped from the real Cfg) and printed as section `branches` for the comparison with the real ones;
+   `ctl` = Spec.CtlDep.ctl_closed_b on the names tainted by an input/output signal (hypothesis of
+   C09_noninterference_with_implicit_flows), `ctlpairs` = number of (branch block, control dependent block) pairs.
    Prints `(result (universe ..) (taint ..) (closure ..) (cons ..) (ccl ..) (constrained ..)
    (defs ..) (decls ..) (sinks ..) (findings ..) (wf 0|1) (ud 0|1) (ssa 0|1|-))` in the format of
    harness/src/bin/taint.rs (wf: ssa_wf_b; ud: nodup_v (all_defs g); ssa: ssa_check g idom, `-` without idom),
@@ -11,13 +15,6 @@ open Drvlib
 open Lib_irwire
 open Taint
 open SideEffect
-
-let r_branches = function
-  | L (A "branches" :: es) ->
-    Stdlib.List.map (function
-        | L [i; L t; L f] -> (num_n i, (Stdlib.List.map num_n t, Stdlib.List.map num_n f))
-        | x -> failwith ("branch entry: " ^ show_sexp x)) es
-  | x -> failwith ("branches: " ^ show_sexp x)
 
 let w_vars l = Stdlib.List.map w_var l
 let w_table t = Stdlib.List.map (fun (k, l) -> L (w_var k :: w_vars l)) t
@@ -57,9 +54,13 @@ let line l =
     | L (A "idom" :: ds) -> Stdlib.List.map (function A "-" -> None | x -> Some (num_n x)) ds
     | x -> failwith ("idom: " ^ show_sexp x) in
   match parse_sexp rest with
-  | L (c :: b :: more) when Stdlib.List.length more <= 1 ->
+  | L (c :: more) when Stdlib.List.length more <= 2 ->
     let g = r_cfg c in
-    let br = r_branches b in
+    (* optional: a list headed by bset, the REAL set of names tainted by an input/output signal, on which the control
+       dependence hypothesis is evaluated as well (field `ctlreal`) *)
+    let real_b = Stdlib.List.find_map (function L (A "bset" :: vs) -> Some (Stdlib.List.map r_var vs) | _ -> None) more in
+    let more = Stdlib.List.filter (function L (A "bset" :: _) -> false | _ -> true) more in
+    BranchRegion.branches_of g >>= fun br ->
     let ssa = match more with
       | [i] -> if SsaCheck.ssa_check g (r_idom i) then "1" else "0"
       | _ -> "-" in
@@ -81,7 +82,20 @@ let line l =
       L (A "defs" :: Stdlib.List.map (w_duse g.Ir.c_params) r.r_taint.t_defs);
       L (A "decls" :: w_vars (canon (Stdlib.List.map (fun d -> d.d_name) r.r_taint.t_decls)));
       L (A "sinks" :: w_vars (canon r.r_sinks));
+      L (A "bset" :: (match exported_sinks g tm with Ok es -> w_vars (canon es) | _ -> [A "?"]));
       L (A "findings" :: Stdlib.List.map w_finding r.r_findings);
+      L (A "branches" :: Stdlib.List.map (fun (i, (t, f)) ->
+           L [w_opt_n (Some i); L (Stdlib.List.map (fun x -> w_opt_n (Some x)) t);
+              L (Stdlib.List.map (fun x -> w_opt_n (Some x)) f)]) br);
+      (* hypothesis of C09_noninterference_with_implicit_flows, evaluated on this cfg *)
+      L [A "ctl"; A (match exported_sinks g tm with
+                     | Ok es -> if CtlDep.ctl_closed_b g es then "1" else "0"
+                     | _ -> "-")];
+      L [A "ctlreal"; A (match real_b with
+                         | Some b -> if CtlDep.ctl_closed_b g b then "1" else "0"
+                         | None -> "-")];
+      L [A "dfmax"; A (match BranchRegion.start_frontier_max g with Ok n -> string_of_int (int_of_nat n) | _ -> "-")];
+      L [A "ctlpairs"; A (string_of_int (Stdlib.List.length (CtlDep.ctl_pairs g)))];
       (* hypotheses of C09_noninterference, evaluated on this cfg (model side only) *)
       L [A "wf"; A (if ssa_wf_b g then "1" else "0")];
       (* hypotheses of C09_location_is_unique_definition(_nodup), evaluated on this cfg *)
